@@ -67,6 +67,58 @@ CLAIMS = {
         "for every group alone, paired with itself and for random ordered pairs, including points on region faces, edges "
         "and vertices. The model loop (with the model of get_proper_groups) is run against the implementation on the same "
         "region normals."),
+ "C01": dict(category="proof", design_ref="DESIGN.md section 5 C01",
+   technique="Lean 4 theorems over the reals (Mathlib trigonometry) for spec maps and a code-shaped model under explicit eps guards; seven numba kernels AST-translated on every run and proved equal to the model; differential check with scipy as independent oracle",
+   text="For every unit quaternion, Lean theorems over the reals prove: matrix.vector = quaternion.vector with an orthogonal "
+        "determinant-1 matrix; matrix->quaternion, Euler (gimbal cases included), axis-angle, Rodrigues and Rodrigues-Frank "
+        "conversions round-trip up to sign; Euler angles in [0,2pi)x[0,pi]x[0,2pi) and rotation angle in [0,pi]; homochoric "
+        "length formula, bound and direction; the degrees flag only rescales and the direction flag only inverts. Proved for "
+        "threshold-free spec maps at full strength and for a code-shaped model of _conversions.py under explicit guards "
+        "(outside the eps band or exactly on the singular value). Seven kernels are tied to the live source by AST-translated "
+        "obligations generated = model; the homochoric inverse (fitted polynomial), ax2ro/ro2ax (np.inf) and all wrapper "
+        "plumbing, shapes, dtypes and classes are tied only by the differential check (tau = 1e-7 rad; 1e-4 through the "
+        "thresholded matrix->quaternion square roots). Rounding and behaviour inside the eps bands are measured. Open findings "
+        "are pinned by proved witnesses (Euler Phi = pi branch sign, homochoric length for negative scalar part, "
+        "Rodrigues-Frank 1e-3 cut-off, 1.4e-7 rad residual of the homochoric inverse below 1e-6 rad)."),
+ "C09": dict(category="proof", design_ref="DESIGN.md section 5 C09",
+   technique="Lean 4 theorems over the reals for all invertible bases (ring/field identities) + AST-translated four-index helpers proved equal to the model + differential runs (exact on dyadic lattices)",
+   text="Over the reals, for every base matrix the lattice constructor accepts and all vectors/index tuples: every pair of "
+        "direct, reciprocal, Cartesian and four-index conversions composes to the identity (four-index on the U+V+T=0 "
+        "hyperplane); the bases are dual; dot = uh+vk+wl; |g| = 1/d; the cross product is perpendicular and has coordinates "
+        "det(B).(u x v) in the dual space; the alignment is a proper rotation giving a || e1 and c* || e3 with unchanged "
+        "metric and kept Cartesian atom positions (12-decimal rounding bounded by 5e-13 per entry). Inputs the real code "
+        "rejects are errors in the model. Tie: AST translation for the four-index helpers, differential runs for "
+        "_transform_space, the alignment function, Phase.structure and Miller (== on dyadic lattices, conditioning-scaled "
+        "tolerances otherwise). numpy.linalg.inv, diffpy Lattice and rounding are assumed/measured."),
+ "C16": dict(category="proof", design_ref="DESIGN.md section 5 C16",
+   technique="Lean 4: index-map and naturality theorems for an NDArray/object model, lifted to all finite programs by induction; differential run of random programs with exact tag comparison; buffer hashing for the no-mutation clause",
+   text="Lean proves for the array/object model (shape + data; objects = arrays of (element, improper flag) + metadata) that "
+        "every structural operation is an explicit index map, commutes with every element map, is bijective where it should "
+        "be, total on well-formed inputs, that flatten uses one fixed idempotent order, and - by induction over arbitrary "
+        "finite programs - that the result equals the same program run on an index array; data and flag arrays follow the same "
+        "permutation; symmetry/phase/coordinate format are preserved (pair swapped per misorientation inverse). Tie: "
+        "differential run of random programs over all five classes with exact tag comparison, and orix alone vs numpy on index "
+        "arrays. The no-mutation clause is not a theorem: it is checked on the implementation by hashing all operands before "
+        "and after every step and every reflected public property/argument-free method. numpy indexing semantics is assumed."),
+ "C17": dict(category="proof", design_ref="DESIGN.md section 5 C17",
+   technique="Lean 4 theorems for all lists (nodup/cover/order/index/inverse contracts of the spec; Rotation.unique pipeline = spec; polynomial key lemma over the reals) + exact differential run",
+   text="Lean proves for all lists of keys, drop predicates and sort orders that the specification of unique is duplicate-free, "
+        "covers every non-dropped input, keeps first-appearance order, and has correct idx and inv; Rotation.unique's "
+        "np.unique -> argsort -> inverse-map pipeline equals that specification (empty list included); Object3d.unique returns "
+        "the correct elements but its idx/inv only satisfy weaker statements, with a proved counter-example (open known "
+        "finding pinned by orix tests); the ten quadratic differentiators are equal iff q' = +-q over the reals. Rounding (10/12 "
+        "decimals, zero test) is outside the theorems and compared exactly with orix on dyadic, tie, near-zero and "
+        "threshold-perturbed inputs for all classes, shapes and options. np.unique/np.round are assumed contracts."),
+ "C20": dict(category="proof", design_ref="DESIGN.md section 5 C20",
+   technique="Lean 4 theorems over the reals (projection bijection, hemisphere split, histogram/smoothing conservation, MRD mean) + AST-translated projection kernels + differential run of the full pole-density pipeline",
+   text="Over the reals: both-pole projection maps hemisphere unit vectors into the closed disk; xy2vector and vector2xy are "
+        "mutual inverses (pole as guarded branch); the hemisphere split with its stated +-1e-9 band; the polar round trip "
+        "outside the 1e-8 snap band; histogram weight conservation with binned <=> in-hemisphere; mass and positivity "
+        "conservation of wrap/reflect smoothing for any symmetric normalised non-negative kernel; MRD mean 1; folded-density "
+        "invariance given C07's orbit-constant projection. scipy gaussian_filter and np.histogram2d are contracts exercised by "
+        "the correspondence; _vector2xy and xy2vector are AST-tied; the full pole_density_function pipeline agrees with the "
+        "model. Open findings: absolute epsilon bands for vectors shorter than ~1e-8 and the C07 sector defects in the folded "
+        "density."),
 }
 REASONS = {}
 checks = []
